@@ -1,6 +1,8 @@
-(** C12 - expr() output re-parses to the same AST (PARTIAL: the printer's local choices proved here; the round trip
-    itself is carried by the correspondence - exhaustive operator nestings and random trees - until lemma (B) is ported). *)
-From EE Require Import Chars OpTable Decimal Token Lexer Ast Parser Printer Api.
+(** C12 - expr() output re-parses to the same AST.
+    The round trip is a theorem at the level of tokens for every well-formed tree and operator table (lemma (B),
+    Lemmas/PrattFull.v); two computable side conditions carry it to text, and the correspondence run evaluates both on every
+    tree it meets. The printer's local choices (quotes, `x not OP y`, parenthesised operands) are proved separately. *)
+From EE Require Import Chars OpTable Decimal Token Lexer Ast Parser Printer Api Etoks PrattFull ImplTable Names.
 Open Scope N_scope.
 
 (* a string literal is quoted with a quote character that does not occur in it (when it does not contain both) *)
@@ -45,3 +47,35 @@ Example C12_example :
   end.
 Proof. vm_compute. reflexivity. Qed.
 Print Assumptions C12_example.
+
+(* THE ROUND TRIP, tokens: [top_toks t] is Printer.expr written in tokens (same parenthesisation functions); for every table
+   with `?`/`:` unregistered and every well-formed tree or `;`-program within the depth limit, parsing gives back the tree *)
+Theorem C12_round_trip_tokens : forall tbl t, premises tbl t = true -> parse_tokens tbl TmEof (top_toks tbl t) = Ok t.
+Proof. exact top_round_trip. Qed.
+Print Assumptions C12_round_trip_tokens.
+
+(* THE ROUND TRIP, text: whenever the tokenizer model reads the printer model's text for [t] as exactly [top_toks t]
+   (a computable check, evaluated by the correspondence run on every tree it meets), parse(expr(t)) = t; printing again then
+   gives the same text (idempotence) *)
+Theorem C12_round_trip : forall tbl t, premises tbl t = true -> printer_tokens tbl t = true ->
+  api_parse tbl (expr tbl t) = Ok t.
+Proof. exact text_round_trip. Qed.
+Print Assumptions C12_round_trip.
+
+Theorem C12_idempotent : forall tbl t, premises tbl t = true -> printer_tokens tbl t = true ->
+  match api_parse tbl (expr tbl t) with Ok t2 => expr tbl t2 = expr tbl t | _ => False end.
+Proof. intros tbl t H1 H2. rewrite (text_round_trip tbl t H1 H2). reflexivity. Qed.
+Print Assumptions C12_idempotent.
+
+(* the side conditions hold on a tree with every node kind over the built-in table:
+   - a ++ * (1 + 2) ? [1, min('s')] : {k: x not in y} ; b = true *)
+Example C12_round_trip_example :
+  let one := ALit (LNum (of_Z 1)) in
+  let a := ARef [97] in
+  let t1 := ATernary (ABinary n_mul (AUnary n_sub (APostfix a n_inc)) (ABinary n_add one one))
+                     (AList [one; AFunc n_min [ALit (LStr [115])]])
+                     (AMap [(ARef [107], AUnary s_not (ABinary n_in a a))]) in
+  let t := AStmt [t1; ABinary n_assign (ARef [98]) (ALit (LBool true))] in
+  premises builtin_table t = true /\ printer_tokens builtin_table t = true.
+Proof. vm_compute. split; reflexivity. Qed.
+Print Assumptions C12_round_trip_example.
